@@ -131,6 +131,7 @@ for _pid, _only, _must in [
 # C06 also owns the kill-order probe: scheduling points inside the termination clean-up
 PROPS['C06']['modules'] = ['Vivid.Props.C06', 'Vivid.Props.C06Global', 'Vivid.Props.M10Global']
 PROPS['C05']['modules'] = ['Vivid.Props.C05', 'Vivid.Props.M10Global']
+PROPS['C19']['modules'] = ['Vivid.Props.C19', 'Vivid.Props.C19C20Global']
 PROPS['C06']['engines'].append(dict(name='killorder', nomodel=True, must_hit=['variant:0', 'variant:3', 'variant:7', 'variant:15']))
 PROPS['C06']['rule'] = AS_RULE + (' killorder (monitor only): parent + fixed-name child (optionally with a grandchild, a watcher, poison, two ActorKilledEvent subscribers) under the baton with extra scheduling points after each '
                                   'notification group of the termination clean-up (yield sites kh.*), seeded random schedules (12 / thorough 200 per variant x 16 variants): whenever a parent or watcher observes OnKilled{X}, '
@@ -138,7 +139,7 @@ PROPS['C06']['rule'] = AS_RULE + (' killorder (monitor only): parent + fixed-nam
 PROPS['C06']['trusted_base'] = AS_TRUST + ['placement of the kh.* yield sites (after the watcher / parent / event notifications, where no lock is held)']
 
 PROPS['C20'] = dict(
-    modules=['Vivid.Props.C20'],
+    modules=['Vivid.Props.C20', 'Vivid.Props.C19C20Global'],
     gens=[],
     engines=[dict(name='actorsys', only=r'JOB-SURVIVES-OWNER|JOB-KEY-COLLISION|CANCEL-UNKNOWN|PANIC|FATAL', must_hit=['ev:sched-once', 'ev:sched-loop', 'ev:cancel:ok', 'ev:cancel:notfound', 'ev:sched-clear', 'ev:cron-invalid', 'sched-scenario']),
              dict(name='schedrt', nomodel=True, must_hit=['rt:once', 'rt:loop-cancel', 'rt:owner-restarted', 'rt:owner-killed'])],
